@@ -321,6 +321,30 @@ theorem direct_sound_on_the_dag (c1 c2 : Circuit) (h1 : WellFormed c1) (h2 : Wel
     wiresEq c1 c2 = true :=
   direct_graph_sound c1 c2 (wellFormed_opOK c1 h1) (wellFormed_opOK c2 h2) h
 
+/-- … and therefore **`CircuitStorage` with its default check** (`check_redundant_circuit` = `direct` on copies; an
+    exception counts as "different", as in the driver) **never refuses a distinct circuit**, stated for the graph-walk
+    model: a circuit that is not stored is, wire by wire, the same circuit as one that is stored -/
+theorem storage_default_keeps_every_distinct_on_the_dag (l : List Circuit) (hl : ∀ c ∈ l, WellFormed c) :
+    let eq := fun a b : Circuit => match checkRedundant a b with | .ok r => r | .error _ => false
+    ∀ x ∈ l, x ∈ (storageAddAll eq false l).1 ∨ ∃ k ∈ (storageAddAll eq false l).1, wiresEq k x = true := by
+  intro eq x hx
+  rw [storage_eq_removeRedundant]
+  have hsub : (removeRedundantWith eq l).Sublist l := (removeRedundantWith_spec eq l).1
+  rcases (removeRedundantWith_spec eq l).2 x hx with h | ⟨k, hk, hkx⟩
+  · exact Or.inl h
+  · refine Or.inr ⟨k, hk, ?_⟩
+    have hkl := hsub.subset hk
+    have hd : direct k x = .ok true := by
+      show checkRedundant k x = .ok true
+      cases hr : checkRedundant k x with
+      | ok r =>
+        have : eq k x = r := by show (match checkRedundant k x with | .ok r => r | .error _ => false) = r; rw [hr]
+        rw [this] at hkx; rw [hkx]
+      | error e =>
+        have : eq k x = false := by show (match checkRedundant k x with | .ok r => r | .error _ => false) = false; rw [hr]
+        rw [this] at hkx; cases hkx
+    exact direct_sound_on_the_dag k x (hl k hkl) (hl x hx) hd
+
 /-- **the original full statements of §3, now theorems**: `iso_sound_statement` and `dedup_iso_statement` (refuted above
     for the matcher before the repair) hold literally — with the executable reference notion `renEq` the harness
     evaluates by brute force — for the repaired functions on well-formed circuits -/
